@@ -70,7 +70,7 @@ def truth_lt(a, b):
     if da and db:
         if len(a._orders) != len(b._orders):
             return False
-        return all(x >= y for x, y in zip(a._orders, b._orders)) and a._orders != b._orders
+        return all(x >= y for x, y in zip(a._orders, b._orders)) and tuple(a._orders) != tuple(b._orders)
     if da:
         if b.name in ISO_ORDER:
             k = ISO_ORDER[b.name]
@@ -108,7 +108,9 @@ def build(run):
         run.function(f)
     named = [getattr(S, n) for n in SUPERS]
     orders = [0, 1, 2, 3, inf]
-    dirs = {n: [S.DirectionalSobolevSpace(o) for o in itertools.product(orders, repeat=n)] for n in (1, 2, 3)}
+    # every order vector given as a tuple and as a list (the two spellings denote the same space)
+    dirs = {n: [S.DirectionalSobolevSpace(o) for o in itertools.product(orders, repeat=n)] + [S.DirectionalSobolevSpace(list(o)) for o in itertools.product(orders, repeat=n)]
+            for n in (1, 2, 3)}
     thorough = run.tier == "thorough"
 
     def fam(name):
@@ -168,6 +170,20 @@ def build(run):
             return f"law(3): a <= b is {v1!r} but (a < b or a == b) is {bool(v2) or bool(v3)}"
         return None
 
+    def law_eq_truth(a, b):
+        """== holds exactly for the same space (same name / same order vector, however it was spelled)."""
+        da, db = isinstance(a, S.DirectionalSobolevSpace), isinstance(b, S.DirectionalSobolevSpace)
+        if da != db:
+            return None
+        same = (tuple(a._orders) == tuple(b._orders)) if da else (a.name == b.name)
+        st, v = call(lambda: a == b)
+        if st == "ok" and bool(v) != same:
+            return f"a == b is {v!r} but 'a and b are the same space' is {same}"
+        st, v = call(lambda: a != b)
+        if st == "ok" and bool(v) == same:
+            return f"a != b is {v!r} but 'a and b are the same space' is {same}"
+        return None
+
     def law_irrefl(a, b):
         s0, e = call(lambda: a == b)
         if s0 == "ok" and e is True:
@@ -190,7 +206,7 @@ def build(run):
         return None
 
     fams = ["named", "d1", "d2"] + (["d3"] if thorough else [])
-    for law in (law_bool, law_lt_truth, law_gt, law_le, law_irrefl, law_member):
+    for law in (law_bool, law_lt_truth, law_eq_truth, law_gt, law_le, law_irrefl, law_member):
         for fa in fams:
             for fb in fams:
                 run.add(f"{law.__name__}/{fa}x{fb}", pair_law(law, fa, fb), kind="proof")
